@@ -107,6 +107,9 @@ pub struct Gen {
     /// recursive functions: their first argument is fuel and is passed as a small literal
     fuel_names: Vec<String>,
     pending_params: Vec<String>,
+    /// the name being declared by the statement under construction (never mentioned in its
+    /// own initialiser, U5)
+    avoid: Option<String>,
     /// names that exist somewhere in the program but are not visible everywhere
     all_names: Vec<(String, Ty)>,
 }
@@ -134,6 +137,7 @@ impl Gen {
             fuel_fns: Vec::new(),
             fuel_names: Vec::new(),
             pending_params: Vec::new(),
+            avoid: None,
             all_names: Vec::new(),
         }
     }
@@ -179,7 +183,12 @@ impl Gen {
     /// An identifier that may not be visible at this point (exercises name resolution)
     fn stray_ident(&mut self, ty: &Ty) -> Option<Expr> {
         if self.cfg.stray_rate > 0.0 && self.chance(self.cfg.stray_rate) {
-            let c: Vec<&(String, Ty)> = self.all_names.iter().filter(|(_, t)| t == ty).collect();
+            let avoid = self.avoid.clone();
+            let c: Vec<&(String, Ty)> = self
+                .all_names
+                .iter()
+                .filter(|(n, t)| t == ty && Some(n) != avoid.as_ref())
+                .collect();
             if let Some((n, _)) = c.choose(&mut self.rng) {
                 return Some(id(n));
             }
@@ -932,7 +941,9 @@ impl Gen {
                 s.vars.retain(|v| v.name != name);
             }
         }
+        let prev = self.avoid.replace(name.to_string());
         let e = self.expr(ty, depth);
+        self.avoid = prev;
         // declarations made while generating (there are none in expressions) are not kept
         self.ctxs = saved;
         e
